@@ -110,6 +110,9 @@ func evalLocal(c Case) (v evid.Verdict, inf info) {
 	if err != nil {
 		return evid.Fail("harness:unknown-ep", "%v", err), info{Outcome: "fail"}
 	}
+	// capacity = length: a read past the end of the input must not be absorbed by spare capacity that
+	// happens to sit behind it (whether b[2:4] of a 3-byte slice panics depends on cap(b))
+	c.In = c.In[:len(c.In):len(c.In)]
 	inf.NT = ep.structOK(c.Op, c.In)
 	call, cleanup, err := ep.prepare(c.Op, c.In)
 	if cleanup != nil {
@@ -191,51 +194,38 @@ func trimStack(st string) string {
 	return strings.Join(out, "\n")
 }
 
-// allocSite re-runs a call that over-allocated and asks the heap profile which site allocated the
-// most. Allocations of at least runtime.MemProfileRate bytes are always sampled, and the worker
-// lowers the rate to 64 KiB, so an allocation that breaks a 16 MiB bound cannot be missed.
+// allocSite names the site that allocated the most since the previous call of allocSite (or since
+// the process started): after a call that broke the bound that is the offending allocation, by a
+// wide margin. Allocations of at least runtime.MemProfileRate bytes are always sampled, and the
+// workers lower the rate to 64 KiB, so an allocation that breaks a 16 MiB bound cannot be missed.
+// (The call is not run a second time: a second multi-hundred-megabyte request in a process whose
+// address space is capped is exactly what the worker should not be asked to survive.)
+var lastProfile = map[[32]uintptr]int64{}
+
 func allocSite(c Case, ep *entryPoint) (string, bool) {
-	snapshot := func() map[[32]uintptr]int64 {
-		runtime.GC()
-		runtime.GC()
-		n, _ := runtime.MemProfile(nil, true)
-		recs := make([]runtime.MemProfileRecord, n+64)
-		n, ok := runtime.MemProfile(recs, true)
-		if !ok {
-			return nil
-		}
-		m := map[[32]uintptr]int64{}
-		for _, r := range recs[:n] {
-			m[r.Stack0] += r.AllocBytes
-		}
-		return m
-	}
-	before := snapshot()
-	call, cleanup, err := ep.prepare(c.Op, c.In)
-	if err != nil || call == nil {
-		if cleanup != nil {
-			cleanup()
-		}
+	runtime.GC() // the profile is published at the end of a collection cycle
+	runtime.GC()
+	n, _ := runtime.MemProfile(nil, true)
+	recs := make([]runtime.MemProfileRecord, n+64)
+	n, ok := runtime.MemProfile(recs, true)
+	if !ok {
 		return "unknown", false
 	}
-	func() {
-		defer func() { recover() }()
-		call()
-	}()
-	if cleanup != nil {
-		cleanup()
-	}
-	after := snapshot()
 	type site struct {
 		st    [32]uintptr
 		bytes int64
 	}
 	var sites []site
-	for st, b := range after {
-		if d := b - before[st]; d > 0 {
+	now := map[[32]uintptr]int64{}
+	for _, r := range recs[:n] {
+		now[r.Stack0] += r.AllocBytes
+	}
+	for st, b := range now {
+		if d := b - lastProfile[st]; d > 0 {
 			sites = append(sites, site{st, d})
 		}
 	}
+	lastProfile = now
 	sort.Slice(sites, func(i, j int) bool { return sites[i].bytes > sites[j].bytes })
 	for _, s := range sites {
 		n := 0
